@@ -817,7 +817,7 @@ func (d *c16Driver) execStructured(r *c16Req) c16Verdict {
 		}
 	}
 	lname := strings.ToLower(r.Name)
-	if lname == "dm.lock" && len(args) >= 3 && !r.Sub {
+	if lname == "dm.lock" && len(args) >= 3 && !r.Sub && r.Ctx != "held-lock" {
 		// make sure the lock is free: the deadline must never be legitimately waited on
 		if err := c.WriteRaw(respc.Encode([]byte("DM.DEL"), args[1], args[2]), 5*time.Second); err != nil {
 			return d.judge(r, stEOF, "pre-clean", err.Error())
